@@ -50,7 +50,9 @@ type batchSpec struct {
 	Verbose         bool         `json:"verbose"`
 	TestWork        bool         `json:"testwork"`
 	WorkdirRoot     bool         `json:"workdir_root"`
-	SetupEnv        [][2]string  `json:"setup_env"` // appended by Params.Setup (plus PATH, VH_LOG, VH_SCRIPT)
+	UseDir          bool         `json:"use_dir"`    // scripts found through Params.Dir (all in s0/) instead of Params.Files
+	Sequential      bool         `json:"sequential"` // the T runs subtests one after the other (Run is synchronous, Parallel a no-op)
+	SetupEnv        [][2]string  `json:"setup_env"`  // appended by Params.Setup (plus PATH, VH_LOG, VH_SCRIPT)
 	ProbeKeys       []string     `json:"probe_keys"`
 	DeadlineMs      int          `json:"deadline_ms"`
 }
@@ -140,12 +142,13 @@ type vT struct {
 }
 
 type vRoot struct {
-	verbose bool
-	release chan struct{} // closed when the parent function (RunT) has returned
-	mu      sync.Mutex
-	subs    []*vT
-	seq     int64
-	hook    func(t *vT, first bool)
+	sequential bool // subtests run one after the other, like cmd/testscript's runT or `go test -parallel 1`
+	verbose    bool
+	release    chan struct{} // closed when the parent function (RunT) has returned
+	mu         sync.Mutex
+	subs       []*vT
+	seq        int64
+	hook       func(t *vT, first bool)
 }
 
 func (r *vRoot) next() int64 {
@@ -194,6 +197,9 @@ func (t *vT) Verbose() bool { return t.root.verbose }
 // Parallel: signal the parent that this subtest is paused, then wait until the parent function
 // has returned (testing releases parallel subtests when the parent's function is done).
 func (t *vT) Parallel() {
+	if t.root.sequential {
+		return
+	}
 	t.once.Do(func() { close(t.paused) })
 	<-t.root.release
 }
@@ -221,6 +227,10 @@ func (t *vT) Run(name string, f func(testscript.T)) {
 		}()
 		f(sub)
 	}()
+	if t.root.sequential {
+		<-sub.done
+		return
+	}
 	<-sub.paused
 }
 
@@ -493,6 +503,7 @@ func runBatch(spec *batchSpec) *batchObs {
 		flushAlive []int
 		flushTree  []string
 		flushOK    bool
+		t          testscript.T
 	}
 	var mu sync.Mutex
 	scripts := map[string]*perScript{} // by workdir base name "script-<name>"
@@ -507,7 +518,7 @@ func runBatch(spec *batchSpec) *batchObs {
 		}
 		return p
 	}
-	root := &vRoot{verbose: spec.Verbose, release: make(chan struct{})}
+	root := &vRoot{verbose: spec.Verbose, sequential: spec.Sequential, release: make(chan struct{})}
 	scriptOf := func(workdir string) string { return strings.TrimPrefix(filepath.Base(workdir), "script-") }
 	sigAlive := func(name string) []int {
 		var alive []int
@@ -536,6 +547,7 @@ func runBatch(spec *batchSpec) *batchObs {
 			p.mu.Lock()
 			sp := p.spec
 			p.workdir = env.WorkDir
+			p.t = env.T()
 			p.mu.Unlock()
 			if sp != nil {
 				for _, id := range sp.SetupDefers {
@@ -569,8 +581,12 @@ func runBatch(spec *batchSpec) *batchObs {
 				p.mu.Unlock()
 			},
 			"regdefer": func(ts *testscript.TestScript, neg bool, args []string) {
-				if len(args) != 1 {
-					ts.Fatalf("usage: regdefer id")
+				if len(args) < 1 || len(args) > 2 {
+					ts.Fatalf("usage: regdefer id [failnow|skip|panic]")
+				}
+				how := ""
+				if len(args) == 2 {
+					how = args[1]
 				}
 				id, err := strconv.Atoi(args[0])
 				ts.Check(err)
@@ -584,7 +600,17 @@ func runBatch(spec *batchSpec) *batchObs {
 					d := deferObs{ID: id, Alive: sigAlive(name), Seq: root.next()}
 					p.mu.Lock()
 					p.deferred = append(p.deferred, d)
+					t := p.t
 					p.mu.Unlock()
+					// a cleanup function that does not return normally
+					switch how {
+					case "failnow":
+						t.FailNow()
+					case "skip":
+						t.Skip("skipped by a deferred function")
+					case "panic":
+						panic(fmt.Sprintf("deferred panic %d", id))
+					}
 				})
 			},
 			// sync <label>: wait until the helper with that label has reported that it runs
@@ -605,6 +631,10 @@ func runBatch(spec *batchSpec) *batchObs {
 				ts.Fatalf("helper %s did not start", args[0])
 			},
 		},
+	}
+	if spec.UseDir {
+		params.Files = nil
+		params.Dir = filepath.Join(spec.Dir, "s0")
 	}
 	if spec.WorkdirRoot {
 		params.WorkdirRoot = filepath.Join(spec.Dir, "wroot")
